@@ -44,6 +44,8 @@ func checkC03(r *evid.Run) {
 		traceAPIHistories(r, 40, 40)
 	}
 	massiveSentinels(r)
+	// "x all options accepted by both API families": every option sequence up to the bound (Options.tla)
+	checkOptions(r, "families", []int{0, 1}, func(*optState) bool { return true })
 	r.Set("exhaustive", true)
 	r.Set("rule", "every order of NewRoot/Add calls (repeated Adds of existing names anywhere, several trees) of at most MaxCalls-1 calls followed by one operation of each kind (text with branch tuples, JSON/YAML/TOML, walk callback/iterator, each through the current function or its deprecated alias) on any node incl. nil and non-roots; result compared with the specification and with the real From-Markdown call on the canonical spelling; non-trivial = at least 3 calls")
 }
